@@ -4,7 +4,7 @@ SetSeq(S) == LET RECURSIVE go(_) go(T) == IF T = {} THEN <<>> ELSE LET x == CHOO
 \* one vector per terminal state: the case, what the oracle allows, what the mechanism (under Deviations) did
 Emit == pc = "done" =>
   PrintT(<<"VEC", ToJson([
-     fam |-> Family, pa |-> cfg.pa, ra |-> cfg.ra, tagged |-> cfg.tagged, pv |-> pv, rv |-> rv,
+     fam |-> Family, pa |-> cfg.pa, ra |-> cfg.ra, tagged |-> cfg.tagged, tags |-> TagLayout, pv |-> pv, rv |-> rv,
      allow |-> [ where |-> [i \in PIdx |-> SetSeq(AllowedWhere(cfg.pa[i], pv[i]))],
                  delivered |-> [i \in PIdx |-> SetSeq(AllowedDelivered(cfg.pa[i], pv[i]))],
                  mustInvoke |-> Satisfies(cfg.pa, pv),
@@ -12,7 +12,7 @@ Emit == pc = "done" =>
                  errnames |-> SetSeq(ViolationNames(cfg.pa, pv)),
                  rwhere |-> [j \in RIdx |-> SetSeq(AllowedWhere(cfg.ra[j], rv[j]))],
                  returned |-> [j \in RIdx |-> SetSeq(AllowedDelivered(cfg.ra[j], rv[j]))],
-                 status |-> IF TagHit THEN 201 ELSE 200,
+                 status |-> DesignedStatus,
                  cMustAccept |-> Satisfies(cfg.ra, rv),
                  cMustReject |-> Violates(cfg.ra, rv) ],
      mech |-> [ where |-> [i \in PIdx |-> wire[i].loc], delivered |-> delivered, invoked |-> invoked,
